@@ -3,6 +3,7 @@ package checks
 import (
 	"bytes"
 	"fmt"
+	"github.com/syndtr/goleveldb/leveldb/filter"
 	"os"
 	"runtime/debug"
 	"sort"
@@ -56,6 +57,7 @@ type Prog struct {
 	Poison            bool     `json:"poison,omitempty"`
 	SlowTableCreateMs int      `json:"slow_table_create_ms,omitempty"` // stall every table Create (stretches the flush window)
 	Settle            bool     `json:"settle,omitempty"`               // wait for background work after every mutating op (deterministic layout)
+	FilterMigration   bool     `json:"filter_migration,omitempty"`     // every (re)open changes the filter policy and lists the earlier ones in AltFilters
 	Ops               []POp    `json:"ops"`
 }
 
@@ -300,6 +302,7 @@ type Runner struct {
 	OnEvent func(ev Event)
 
 	tableCache map[string][]leveldb.VerifEntry
+	opens      int
 	Tracer     *lsmTracer
 	snapMu     sync.Mutex
 	snapSeqs   map[*leveldb.Snapshot]uint64
@@ -393,7 +396,35 @@ func evBrief(args []interface{}) string {
 
 func UninstallSink() { leveldb.VerifSink = nil; leveldb.VerifYield = nil }
 
+// namedBloom is a bloom policy under its own name: tables record the name of the policy they were written with,
+// and a reader picks the policy for a table by that name (Options.Filter first, then Options.AltFilters).
+type namedBloom struct {
+	filter.Filter
+	name string
+}
+
+func (n namedBloom) Name() string { return n.name }
+
+var migrationPolicies = []filter.Filter{
+	namedBloom{filter.NewBloomFilter(10), "verif.policyA"},
+	namedBloom{filter.NewBloomFilter(6), "verif.policyB"},
+	nil, // no filter for new tables; the old ones keep theirs through AltFilters
+	namedBloom{filter.NewBloomFilter(14), "verif.policyC"},
+}
+
 func (r *Runner) open() error {
+	if r.P.FilterMigration {
+		o := *r.O
+		o.Filter = migrationPolicies[r.opens%len(migrationPolicies)]
+		o.AltFilters = nil
+		for _, f := range migrationPolicies {
+			if f != nil && f != o.Filter {
+				o.AltFilters = append(o.AltFilters, f)
+			}
+		}
+		r.O = &o
+		r.opens++
+	}
 	db, err := leveldb.Open(r.St, r.O)
 	if err != nil {
 		return err
